@@ -62,6 +62,17 @@ def gen_category_pool(rnd):
     return pool
 
 
+def broken_rule(rnd, pool):
+    """a well-formed rule cut in two at its '=' by a separator: two malformed lines, each to be ignored (a parser
+    that matches across line ends would fuse them into a rule again)"""
+    lhs = rnd.choice(["*", "*", rnd.choice(pool) or "*", (rnd.choice(pool) or "a")[:1] + "*"])
+    if rnd.random() < 0.3:
+        lhs += "." + rnd.choice(TYPES)
+    val = rnd.choice(["true", "false", "false"])
+    cut = rnd.choice([(lhs, "=" + val), (lhs + "=", val), (lhs + " =", " " + val), (lhs + rnd.choice(WS), rnd.choice(WS) + "= " + val)])
+    return [cut[0], cut[1]]
+
+
 def gen_rules(rnd, pool, max_rules=5):
     """returns (spec_rules, text, lines) ; spec_rules = list of {pat:[units], typed:str, on:bool}"""
     rules = []
@@ -71,6 +82,8 @@ def gen_rules(rnd, pool, max_rules=5):
     for _ in range(n):
         while rnd.random() < 0.25:
             parts.append(rnd.choice(GARBAGE))
+        if rnd.random() < 0.15:
+            parts += broken_rule(rnd, pool)
         if made and rnd.random() < 0.25:
             # a rule restated verbatim further down the list (defaults and overrides concatenated): its later
             # position is what counts
@@ -95,6 +108,8 @@ def gen_rules(rnd, pool, max_rules=5):
         made.append((line, rules[-1]))
     while rnd.random() < 0.25:
         parts.append(rnd.choice(GARBAGE))
+    if rnd.random() < 0.15:
+        parts += broken_rule(rnd, pool)
     text = ""
     for i, p in enumerate(parts):
         text += p
